@@ -80,6 +80,10 @@ def c08_oracle(d):
         if r["kind"].startswith("control") or r["kind"] == "untouched":
             if r.get("index") != "ok":
                 fails.append(dict(kind="legitimate-tape-rejected", pos=r.get("pos"), detail=[r["kind"], r.get("index_err")]))
+        elif r["kind"].startswith("unsigned-record-on-envelope"):
+            # the signed header and its signature are intact: accepting the tape is fine as long as nothing but the
+            # signed header is used (checked above: every accepted header must be one the writer signed)
+            pass
         elif r["kind"] != "flip" and r["kind"] != "content-altered" and r.get("index") == "ok":
             fails.append(dict(kind="structured-forgery-not-rejected", pos=r.get("pos"), detail=[r["kind"]]))
     return fails
